@@ -1,1 +1,119 @@
-fn main(){}
+//! vrec LOG [ARG...] — recorder child for binary-level checks.
+//! Appends one record (argv after LOG, cwd) to LOG with a single O_APPEND write, then ends as
+//! the outcome script says: env VREC_OUTCOMES="0,1,255,s15,u,x" gives, for the k-th record
+//! already-in-log count k, an exit status, 'sN' = raise signal N, 'u' = unlink own
+//! executable then exit 0, 'x' = chmod own executable to 0644 then exit 0. Default 0.
+//! With VREC_MODE=count only the number of arguments and a rolling hash are logged.
+use std::io::Write;
+use std::os::unix::ffi::OsStrExt;
+use std::os::unix::fs::OpenOptionsExt;
+
+fn main() {
+    let args: Vec<std::ffi::OsString> = std::env::args_os().collect();
+    if args.len() < 2 {
+        std::process::exit(2);
+    }
+    let log = &args[1];
+    let mut rec: Vec<u8> = Vec::new();
+    let rest = &args[2..];
+    if std::env::var_os("VREC_MODE").is_some_and(|m| m == "count") {
+        let mut h: u64 = 0xcbf29ce484222325;
+        let mut bytes = 0usize;
+        for a in rest {
+            for b in a.as_bytes() {
+                h ^= *b as u64;
+                h = h.wrapping_mul(0x100000001b3);
+            }
+            h ^= 0xff;
+            h = h.wrapping_mul(0x100000001b3);
+            bytes += a.len();
+        }
+        let first = rest.first().map(|a| a.as_bytes().to_vec()).unwrap_or_default();
+        let last = rest.last().map(|a| a.as_bytes().to_vec()).unwrap_or_default();
+        rec.extend_from_slice(format!("N {} {} {:016x} {} {}\n", rest.len(), bytes, h, first.len().min(64), last.len().min(64)).as_bytes());
+        rec.extend_from_slice(&first[..first.len().min(64)]);
+        rec.push(b'\n');
+        rec.extend_from_slice(&last[..last.len().min(64)]);
+        rec.push(b'\n');
+    } else {
+        rec.extend_from_slice(format!("R {}\n", rest.len()).as_bytes());
+        for a in rest {
+            rec.extend_from_slice(format!("{}\n", a.len()).as_bytes());
+            rec.extend_from_slice(a.as_bytes());
+            rec.push(b'\n');
+        }
+        let cwd = std::env::current_dir().map(|p| p.as_os_str().as_bytes().to_vec()).unwrap_or_default();
+        rec.extend_from_slice(format!("C {}\n", cwd.len()).as_bytes());
+        rec.extend_from_slice(&cwd);
+        rec.push(b'\n');
+    }
+    // invocation index = number of records already there (children run one after another)
+    let before = std::fs::read(log).unwrap_or_default();
+    let k = count_records(&before);
+    let mut f = std::fs::OpenOptions::new().create(true).append(true).mode(0o666).open(log).expect("open log");
+    f.write_all(&rec).expect("write log");
+    drop(f);
+    let script = std::env::var("VREC_OUTCOMES").unwrap_or_default();
+    let o = script.split(',').nth(k).unwrap_or("0").trim().to_string();
+    if let Some(sig) = o.strip_prefix('s') {
+        let n: i32 = sig.parse().unwrap_or(15);
+        unsafe {
+            libc::raise(n);
+        }
+        std::process::exit(99);
+    }
+    if o == "u" || o == "x" {
+        if let Ok(me) = std::env::current_exe() {
+            if o == "u" {
+                let _ = std::fs::remove_file(&me);
+            } else {
+                use std::os::unix::fs::PermissionsExt;
+                let _ = std::fs::set_permissions(&me, std::fs::Permissions::from_mode(0o644));
+            }
+        }
+        std::process::exit(0);
+    }
+    std::process::exit(o.parse().unwrap_or(0));
+}
+
+fn count_records(b: &[u8]) -> usize {
+    // records start with "R n\n" or "N ...\n" at a record boundary; parse sequentially
+    let mut i = 0;
+    let mut n = 0;
+    let line = |i: &mut usize| -> Option<String> {
+        let s = *i;
+        while *i < b.len() && b[*i] != b'\n' {
+            *i += 1;
+        }
+        if *i >= b.len() {
+            return None;
+        }
+        let l = String::from_utf8_lossy(&b[s..*i]).to_string();
+        *i += 1;
+        Some(l)
+    };
+    while i < b.len() {
+        let Some(h) = line(&mut i) else { break };
+        if let Some(k) = h.strip_prefix("R ") {
+            let k: usize = k.trim().parse().unwrap_or(0);
+            for _ in 0..k {
+                let Some(l) = line(&mut i) else { return n };
+                let len: usize = l.trim().parse().unwrap_or(0);
+                i += len + 1;
+            }
+            let Some(c) = line(&mut i) else { return n };
+            let len: usize = c.trim_start_matches("C ").trim().parse().unwrap_or(0);
+            i += len + 1;
+            n += 1;
+        } else if h.starts_with("N ") {
+            let parts: Vec<&str> = h.split(' ').collect();
+            let a: usize = parts.get(4).and_then(|x| x.parse().ok()).unwrap_or(0);
+            let c: usize = parts.get(5).and_then(|x| x.parse().ok()).unwrap_or(0);
+            i += a + 1 + c + 1;
+            n += 1;
+        } else {
+            break;
+        }
+    }
+    n
+}
